@@ -454,6 +454,7 @@ def run_shard(spec, ctx):
     START_CWD[0] = os.getcwd()
     if spec["kind"] == "escaping":
         from cklmon import sessions
+        sessions.run_residue(ctx, "C10")
         return sessions.run_escaping(ctx, "C10")
     moddir = os.path.join(os.getcwd(), "mods")
     write_modules(moddir)
